@@ -1,6 +1,7 @@
 import XdistProofs.Sys.EachOnce
 import XdistProofs.Sched.ScopeUnits
 import XdistProofs.Sched.ScopeDisj
+import XdistProofs.Sched.ScopeWire
 /-!
   C06, whole system: under `--dist loadscope`, `loadfile` and `loadgroup`, in **every execution of the composed system** every work
   unit — queued, or assigned to a worker, whole or the re-queued remainder of a dead worker's — holds only tests of the group key it
@@ -93,6 +94,84 @@ theorem C06_sys_group_in_one_place (specs : AList Nat Nat) (m : String) (numnode
   | ws s => rw [hsc] at hp; exact hp.elim
   | each s => rw [hsc] at hp; exact hp.elim
 
+/-- a `runtests` is in the log iff it is among the dispatching commands -/
+theorem run_mem_dispatches (e : Env) (n : Nat) (is : List Nat) : SOut.run n is ∈ dispatches e ↔ SOut.run n is ∈ e.outs := by
+  simp [dispatches, isDispatch]
+
+/-- the scheduler is (and stays) a `LoadScopeScheduling` of mode `m` and `WI` holds of it and the wire -/
+def ScopeW (m : String) : Sched.Any → Env → Prop
+  | .scope m' s, e => m' = m ∧ LoadScope.WI (Sched.splitOf m) s e
+  | _, _ => False
+
+theorem wi_congr {split : String → String} {s : LoadScope.State String String} {e e' : Env} (h : LoadScope.WI split s e)
+    (hd : dispatches e' = dispatches e) : LoadScope.WI split s e' := by
+  have hmem : ∀ n is, SOut.run n is ∈ e'.outs → SOut.run n is ∈ e.outs := by
+    intro n is hm
+    rw [← run_mem_dispatches] at hm ⊢
+    rw [← hd]; exact hm
+  exact ⟨h.hom, h.di, fun col hc => ⟨(h.agreed col hc).1, LoadScope.runsOk_mono (h.agreed col hc).2 hmem⟩,
+    fun hc n is hm => h.quiet hc n is (hmem n is hm), h.cmp⟩
+
+theorem iface_scopeW (specs : AList Nat Nat) (m : String) : DiscS (Sched.iface specs) (ScopeW m) where
+  step := by
+    intro s e op s' e' r h hp
+    cases s with
+    | scope m' s0 =>
+      obtain ⟨rfl, hh⟩ := hp
+      simp only [Sched.iface, Sched.Any.step] at h
+      obtain ⟨q, hq, hq2⟩ := map_ok.1 h
+      simp only [Prod.mk.injEq] at hq2
+      obtain ⟨rfl, rfl, _⟩ := hq2
+      obtain ⟨q1, q2, q3⟩ := q
+      exact ⟨rfl, LoadScope.step_wi _ hq hh⟩
+    | nosched => exact hp.elim
+    | load s0 => exact hp.elim
+    | ws s0 => exact hp.elim
+    | each s0 => exact hp.elim
+  congr := by
+    intro s e e' hp hd
+    cases s with
+    | scope m' s0 => exact ⟨hp.1, wi_congr hp.2 hd⟩
+    | nosched => exact hp.elim
+    | load s0 => exact hp.elim
+    | ws s0 => exact hp.elim
+    | each s0 => exact hp.elim
+
+/-- **Every `runtests` carries one group, whole system** (C06; `m` is `loadscope`, `loadfile` or `loadgroup`).  After any execution of
+    the composed system — any schedule of the threads, crashes whose left-over is re-queued, replacements, stop requests —, every
+    `runtests` command that has ever been written to any worker carries indices which, read in the agreed collection, are tests of one
+    single group; and every worker registered with the scheduler has reported exactly that collection.  With the worker executing what
+    it is sent in order (`C05_sys_workers_refine`) the tests of a group are handed over together, nothing of another group in between. -/
+theorem C06_sys_every_runtests_one_group (specs : AList Nat Nat) (m : String) (numnodes maxfail : Nat) (mr : Option Int)
+    (idsOf : Nat → List String) (steps : List Step) {st : State Sched.Any String}
+    (h : run (Sched.iface specs) idsOf (init (Sched.iface specs) (.scope m (LoadScope.init numnodes)) numnodes maxfail mr idsOf) steps = .ok st)
+    (n : Nat) (is : List Nat) (hrun : SOut.run n is ∈ st.ctl.env.outs) :
+    ∃ s col scope, st.ctl.sched = .scope m s ∧ s.collection = some col ∧ (∀ p ∈ s.registered, p.2 = col) ∧
+      ∀ i ∈ is, ∃ t, col[i]? = some t ∧ Sched.splitOf m t = scope := by
+  have h0 : ScopeW m (init (Sched.iface specs) (.scope m (LoadScope.init numnodes)) numnodes maxfail mr idsOf).ctl.sched
+      (init (Sched.iface specs) (.scope m (LoadScope.init numnodes)) numnodes maxfail mr idsOf).ctl.env := by
+    refine ⟨rfl, ⟨?_, ?_⟩, LoadScope.init_di numnodes, ?_, ?_, ?_⟩
+    · intro p hp; simp [LoadScope.init] at hp
+    · intro a ha; simp [LoadScope.init] at ha
+    · intro col hc; simp [LoadScope.init] at hc
+    · intro _ k js hm; simp [init, Ctl.init] at hm
+    · intro hc; simp [LoadScope.init] at hc
+  have hp := run_discS (Sched.iface specs) (iface_scopeW specs m) idsOf steps h0 h
+  cases hsc : st.ctl.sched with
+  | scope m' s =>
+    rw [hsc] at hp
+    obtain ⟨rfl, hh⟩ := hp
+    cases hc : s.collection with
+    | none => exact absurd hrun (hh.quiet hc n is)
+    | some col =>
+      obtain ⟨a1, a2⟩ := hh.agreed col hc
+      obtain ⟨scope, hsc'⟩ := a2 n is hrun
+      exact ⟨s, col, scope, rfl, hc, a1, hsc'⟩
+  | nosched => rw [hsc] at hp; exact hp.elim
+  | load s => rw [hsc] at hp; exact hp.elim
+  | ws s => rw [hsc] at hp; exact hp.elim
+  | each s => rw [hsc] at hp; exact hp.elim
+
 /-! Non-vacuity: a `--dist loadfile` execution, replayed by the kernel, after which worker 0 holds the unit of `a.py` (both its tests,
     in collection order) and has been sent one `runtests` with their indices 0 and 2; the unit of `b.py` went with the top-up. -/
 def scopeIds : Nat → List String := fun _ => ["a.py::x", "b.py::y", "a.py::z"]
@@ -111,5 +190,20 @@ example : LoadScope.unitsOf SplitScope.fileKeyS ["a.py::x", "b.py::y", "a.py::z"
 theorem scopeRun_assigned : scopeFinal.map (fun st => match st.ctl.sched with
     | .scope _ s => (s.assigned.map (fun a => (a.1, AList.keys a.2)), AList.keys s.workqueue) | _ => ([], [])) =
     some ([(0, ["a.py", "b.py"])], []) := by decide +kernel
+
+/-- the wire theorem instantiated on that execution: the `runtests 0 [0, 2]` that was written carries tests of one file -/
+example : ∃ st, run (Sched.iface []) scopeIds scopeInit scopeSteps = .ok st ∧ SOut.run 0 [0, 2] ∈ st.ctl.env.outs ∧
+    ∃ s col scope, st.ctl.sched = .scope "loadfile" s ∧ s.collection = some col ∧
+      ∀ i ∈ [0, 2], ∃ t, col[i]? = some t ∧ Sched.splitOf "loadfile" t = scope := by
+  have h := scopeRun
+  unfold scopeFinal at h
+  cases hr : run (Sched.iface []) scopeIds scopeInit scopeSteps with
+  | error e => rw [hr] at h; simp at h
+  | ok st =>
+    rw [hr] at h
+    simp only [Option.map_some, Option.some.injEq] at h
+    have hrun : SOut.run 0 [0, 2] ∈ st.ctl.env.outs := by rw [h]; simp
+    obtain ⟨s, col, scope, a, b, _, c⟩ := C06_sys_every_runtests_one_group [] "loadfile" 1 0 (some 4) scopeIds scopeSteps hr 0 [0, 2] hrun
+    exact ⟨st, rfl, hrun, s, col, scope, a, b, c⟩
 
 end Xdist.Sys
